@@ -3,8 +3,8 @@
 //!   cfg   := `<D|B|I><max_depth>s<max_solutions>`            e.g. `D3s1`
 //!   facts := `-` | `F<i>=<val>,…`     val := `t` | `f` | `n<int>` (Number) | `i<int>` (Integer) | `s<word>` (String;
 //!            `<word>` may be empty = the empty string, and `_` in it stands for a blank: `sa_b` = "a b", `s_` = " ")
-//!   query := atom                      atom := `F<i>.<op>.<val>`   op := eq|ne|gt|lt|ge|le
-//!   rules := `-` | rule;rule;…         rule := `<cond>~<action>+<action>…`
+//!   query := atom | `!`atom            atom := `F<i>.<op>.<val>`   op := eq|ne|gt|lt|ge|le   (`!atom` = the NEGATED query `NOT <atom>`)
+//!   rules := `-` | rule;rule;…         rule := [`*`]`<cond>~<action>+<action>…`   (`*` = the rule is added DISABLED: `enabled = false`)
 //!   action:= `F<i>:=<val>` Set | `F<i><<<scalar>` Append (`+=`) | `F<i>!` Retract | `F<i>$<int>` MethodCall F<i>.setSpeed(Number)
 //!            | `F4$g` MethodCall E.getSpeed() (writes the result to `E._return` = F10)
 //!            further val forms (facts / Set literals): `a` = empty array, `a<scalar>^<scalar>…` = array of scalars,
@@ -108,6 +108,10 @@ fn parse_cond(toks: &[&str], pos: &mut usize) -> Option<ConditionGroup> {
 }
 
 fn parse_rule(i: usize, s: &str) -> Option<Rule> {
+    let (s, enabled) = match s.strip_prefix('*') {
+        Some(r) => (r, false),
+        None => (s, true),
+    };
     let (c, a) = s.split_once('~')?;
     let toks: Vec<&str> = c.split(',').collect();
     let mut pos = 0;
@@ -136,7 +140,9 @@ fn parse_rule(i: usize, s: &str) -> Option<Rule> {
             acts.push(ActionType::Retract { object: FIELDS[parse_field(asg.strip_suffix('!')?)?].to_string() });
         }
     }
-    Some(Rule::new(format!("R{}", i), cond, acts))
+    let mut r = Rule::new(format!("R{}", i), cond, acts);
+    r.enabled = enabled;
+    Some(r)
 }
 
 fn op_str(op: &Operator) -> &'static str {
@@ -189,8 +195,12 @@ pub fn parse_case(case: &str) -> Option<Case> {
             facts.push((parse_field(k)?, parse_val(v)?));
         }
     }
-    let (qf, qop, qv) = parse_atom(t[2])?;
-    let query = format!("{} {} {}", FIELDS[qf], op_str(&qop), lit_str(&qv));
+    let (neg, qa) = match t[2].strip_prefix('!') {
+        Some(r) => ("NOT ", r),
+        None => ("", t[2]),
+    };
+    let (qf, qop, qv) = parse_atom(qa)?;
+    let query = format!("{}{} {} {}", neg, FIELDS[qf], op_str(&qop), lit_str(&qv));
     let mut rules = Vec::new();
     if t[3] != "-" {
         for (i, r) in t[3].split(';').enumerate() {
@@ -843,6 +853,197 @@ fn gen_general_actions(rng: &mut Rng) -> String {
     )
 }
 
+// ------------------------------------------------ negated queries (C10 part B: found-then-discarded proofs)
+
+/// "not provable" reached THROUGH a found proof: the query is `NOT g`, `g` is false in the initial facts but derivable —
+/// at once (first-attempt arm of the candidate loop) or only through a chain of 1..3 sub-goal levels (retry arm) —
+/// through one or several candidate rules (a chained one, a direct one, a second chain, in any order: this is what
+/// max_solutions 1, 2, 3, 5 tell apart — the shared solution list also counts the sub-goals' proofs), conjunctions
+/// whose other conjunct is a second derived fact, rules carrying Append / Retract / a second Set beside their Set,
+/// wrong-value and dead-end rivals. Whatever the search derived on the way must be gone when the verdict is "not
+/// provable". Controls: `g` already true (not provable at once), the seed fact absent (nothing derivable: `NOT g`
+/// is provable), `!=` / wrong-value query literals, and the positive query on the same knowledge base.
+/// Returns (facts, query atom without `!`, rules, max_depth that explores everything).
+fn gen_negated(rng: &mut Rng) -> (String, String, String, u64) {
+    let levels = if rng.chance(1, 7) { 0 } else { rng.range(1, 3) };
+    let extra = |rng: &mut Rng| -> &'static str {
+        *rng.pick(&["", "", "", "+F8<<sx", "+F9:=n1", "+F8!", "+F8<<sa+F9:=t"])
+    };
+    let mut rules: Vec<String> = Vec::new();
+    // chain F6 -> F0 -> … -> F{levels-1}; the goal rule hangs on its last link (on the seed when levels = 0)
+    let mut prev = "F6.eq.n1".to_string();
+    for i in 0..levels {
+        rules.push(format!("{}~F{}:=t{}", prev, i, extra(rng)));
+        prev = format!("F{}.eq.t", i);
+    }
+    let mut need = levels;
+    let goal_cond = match rng.below(5) {
+        0 if levels > 0 => {
+            // second conjunct: another derived fact (a second sub-goal, proven before / after the chain)
+            rules.push(format!("F6.eq.n1~F3:=t{}", extra(rng)));
+            need = need.max(1);
+            if rng.chance(1, 2) { format!("&,{},F3.eq.t", prev) } else { format!("&,F3.eq.t,{}", prev) }
+        }
+        1 if levels > 0 => format!("&,{},F6.eq.n1", prev),
+        _ => prev.clone(),
+    };
+    rules.push(format!("{}~F5:=t{}", goal_cond, extra(rng)));
+    // further candidates for the goal
+    for _ in 0..*rng.pick(&[0u64, 0, 1, 1, 2]) {
+        match rng.below(6) {
+            0 | 1 => rules.push(format!("F6.eq.n1~F5:=t{}", extra(rng))), // direct: first-attempt arm
+            2 => {
+                // a second chain, through F4
+                rules.push(format!("F6.eq.n1~F4:=t{}", extra(rng)));
+                rules.push("F4.eq.t~F5:=t".to_string());
+                need = need.max(1);
+            }
+            3 => rules.push(format!("{}~F5:=f", if rng.chance(1, 2) { "F6.eq.n1".to_string() } else { prev.clone() })),
+            4 => rules.push("F7.eq.t~F5:=t".to_string()), // dead end
+            _ => rules.push(format!("&,{},F7.eq.t~F5:=t", prev)), // sub-goals proven, last conjunct underivable
+        }
+    }
+    if rng.chance(1, 2) {
+        rng.shuffle(&mut rules);
+    }
+    let mut facts: Vec<String> = Vec::new();
+    if rng.chance(9, 10) {
+        facts.push("F6=n1".to_string());
+    }
+    match rng.below(12) {
+        0 => facts.push("F5=t".to_string()), // the positive form already holds
+        1 | 2 => facts.push("F5=f".to_string()),
+        _ => {}
+    }
+    if rng.chance(1, 4) {
+        facts.push(format!("F8={}", *rng.pick(&["a", "asx", "t"])));
+    }
+    let q = match rng.below(12) {
+        0 => "F5.ne.f",
+        1 => "F5.eq.f",
+        2 => "F5.ne.t",
+        _ => "F5.eq.t",
+    };
+    (if facts.is_empty() { "-".to_string() } else { facts.join(",") }, q.to_string(), rules.join(";"), need)
+}
+
+// ------------------------------------------------ disabled rules (F-C09f)
+
+/// marks `k` random rules of the `;`-separated list as disabled
+fn disable_some(rng: &mut Rng, rules: &str, k: u64) -> String {
+    if rules == "-" {
+        return rules.to_string();
+    }
+    let mut rs: Vec<String> = rules.split(';').map(|s| s.to_string()).collect();
+    for _ in 0..k {
+        let i = rng.below(rs.len() as u64) as usize;
+        if !rs[i].starts_with('*') {
+            rs[i] = format!("*{}", rs[i]);
+        }
+    }
+    rs.join(";")
+}
+
+/// knowledge bases in which 1..3 rules are DISABLED (`*`, `rule.enabled = false`). The forward engine never fires a
+/// disabled rule, so a backward proof must not use one: the conclusion index does not list it, but the substring
+/// heuristics — `rule_could_prove_goal` (top level, when the index proposes nothing) and `rule_could_prove_pattern`
+/// (every sub-goal) — do. Shapes: the disabled rule is the ONLY one concluding the goal (fallback path), with and
+/// without unrelated enabled rules; it concludes a sub-goal of an enabled rule (1..2 levels down); it concludes the
+/// WRONG value for the goal / a sub-goal beside an enabled rule with the right one (and the other way round: only the
+/// disabled rule has the value asked for); it stands beside an enabled rule on the same field whose condition is
+/// false (index non-empty) or true; the goal already holds and only disabled rules could conclude it (what the
+/// iterative probe looks at); random Horn / chain / failing-first-alternative KBs with 1..3 random rules disabled.
+/// Returns (body, max_depth that explores everything).
+fn gen_disabled(rng: &mut Rng) -> (String, u64) {
+    let v = *rng.pick(&["t", "t", "n1", "sab"]);
+    let w = if v == "t" { "f" } else { "t" };
+    let mut facts = vec!["F6=n1".to_string()];
+    let mut rules: Vec<String> = Vec::new();
+    let mut q = format!("F5.eq.{}", v);
+    let mut need = 1;
+    match rng.below(9) {
+        0 => {
+            // the only rule concluding the goal is disabled
+            rules.push(format!("*F6.eq.n1~F5:={}", v));
+            for _ in 0..rng.below(3) {
+                rules.push(format!("F6.eq.n1~F{}:=t", rng.below(4)));
+            }
+            if rng.chance(1, 4) {
+                rules.push(format!("*F6.eq.n1~F5:={}+F0:=t", v));
+            }
+        }
+        1 => {
+            // … of a sub-goal of an enabled rule, one or two levels down
+            rules.push("*F6.eq.n1~F0:=t".to_string());
+            if rng.chance(1, 2) {
+                rules.push(format!("F0.eq.t~F5:={}", v));
+                need = 2;
+            } else {
+                rules.push("F0.eq.t~F1:=t".to_string());
+                rules.push(format!("{}~F5:={}", *rng.pick(&["F1.eq.t", "&,F1.eq.t,F6.eq.n1", "&,F6.eq.n1,F1.eq.t"]), v));
+                need = 3;
+            }
+        }
+        2 => {
+            // disabled rule with the wrong value beside an enabled one with the right value
+            rules.push(format!("*F6.eq.n1~F5:={}", w));
+            rules.push(format!("F6.eq.n1~F5:={}", v));
+            if rng.chance(1, 2) {
+                q = format!("F5.eq.{}", w); // only the disabled rule has the value asked for
+            }
+        }
+        3 => {
+            // the same one level down
+            rules.push(format!("*F6.eq.n1~F0:={}", w));
+            if rng.chance(2, 3) {
+                rules.push(format!("F6.eq.n1~F0:={}", v));
+            }
+            rules.push(format!("F0.eq.{}~F5:=t", if rng.chance(1, 2) { v } else { w }));
+            q = "F5.eq.t".to_string();
+            need = 2;
+        }
+        4 => {
+            // beside an enabled rule on the same field whose condition is false (index non-empty) / true
+            rules.push(format!("*F6.eq.n1~F5:={}", v));
+            rules.push(format!("{}~F5:={}", *rng.pick(&["F7.eq.t", "F7.eq.t", "F6.eq.n2", "F6.eq.n1"]), v));
+        }
+        5 => {
+            // the goal already holds; only disabled rules could conclude it
+            facts.push(format!("F5={}", v));
+            rules.push(format!("*F6.eq.n1~F5:={}", if rng.chance(1, 2) { v } else { w }));
+            if rng.chance(1, 3) {
+                rules.push("F6.eq.n1~F0:=t".to_string());
+            }
+        }
+        6 => {
+            // a disabled rule that would UNDO what an enabled one derived (Retract / second Set), or derive the permit
+            rules.push("F6.eq.n1~F0:=t".to_string());
+            rules.push(format!("*F6.eq.n1~F1:=t{}", *rng.pick(&["", "+F0!", "+F0:=f"])));
+            rules.push(format!("&,F0.eq.t,F1.eq.t~F5:={}", v));
+            if rng.chance(1, 2) {
+                rules.push("F6.eq.n1~F1:=t".to_string());
+            }
+            need = 2;
+        }
+        7 => {
+            let body = gen_shape(rng);
+            let t: Vec<&str> = body.split(' ').collect();
+            let k = rng.range(1, 3);
+            return (format!("{} {} {}", t[0], t[1], disable_some(rng, t[2], k)), 6);
+        }
+        _ => {
+            let body = if rng.chance(1, 2) { gen_horn(rng, false) } else { gen_interfere(rng).0 };
+            let t: Vec<&str> = body.split(' ').collect();
+            let k = rng.range(1, 3);
+            return (format!("{} {} {}", t[0], t[1], disable_some(rng, t[2], k)), 4);
+        }
+    }
+    if rng.chance(1, 3) {
+        rng.shuffle(&mut rules);
+    }
+    (format!("{} {} {}", facts.join(","), q, rules.join(";")), need)
+}
+
 fn gen(rng: &mut Rng, n: usize, _tier: &str) -> Vec<String> {
     let mut out = Vec::new();
     for i in 0..n {
@@ -934,6 +1135,35 @@ fn gen(rng: &mut Rng, n: usize, _tier: &str) -> Vec<String> {
         }
         out.push(format!("B{}s1 {}", d, body));
         out.push(format!("I{}s{} {}", d, if rng.chance(3, 4) { 1 } else { 3 }, body));
+    }
+    // negated-query family (C10 part B): every problem under DFS with max_solutions 1, 2, 3 AND 5 at the exploring depth
+    // (or one more), once at a random depth, under BFS and iterative, and once as the positive query with max_solutions > 1
+    for _ in 0..n / 10 {
+        let (facts, q, rules, need) = gen_negated(rng);
+        let d = (need + rng.below(2)).min(6);
+        for ms in [1, 2, 3, 5] {
+            out.push(format!("D{}s{} {} !{} {}", d, ms, facts, q, rules));
+        }
+        out.push(format!("D{}s{} {} !{} {}", rng.below(5), *rng.pick(&[1, 2, 3, 5]), facts, q, rules));
+        out.push(format!("B{}s{} {} !{} {}", d, *rng.pick(&[1, 3]), facts, q, rules));
+        out.push(format!("I{}s{} {} !{} {}", d, *rng.pick(&[1, 2, 3, 5]), facts, q, rules));
+        out.push(format!("D{}s{} {} {} {}", d, *rng.pick(&[2, 3, 5]), facts, q, rules));
+    }
+    // disabled-rule family (F-C09f): every problem under EVERY strategy; 1 in 4 also as the negated query (whose
+    // candidates always come from the linear fallback, which offers disabled rules)
+    for _ in 0..n / 10 {
+        let (body, need) = gen_disabled(rng);
+        let d = (need + rng.below(2)).min(6);
+        out.push(format!("D{}s1 {}", d, body));
+        out.push(format!("B{}s1 {}", d, body));
+        out.push(format!("I{}s1 {}", d, body));
+        if rng.chance(1, 3) {
+            out.push(format!("D{}s{} {}", rng.below(7), *rng.pick(&[1, 3]), body));
+        }
+        if rng.chance(1, 4) {
+            let t: Vec<&str> = body.split(' ').collect();
+            out.push(format!("D{}s{} {} !{} {}", d, *rng.pick(&[1, 3]), t[0], t[1], t[2]));
+        }
     }
     out
 }
